@@ -27,8 +27,8 @@ RULE = (
     "query battery - neighbors() for every vertex x 3 directions x 3 unknown modes x {no filter, shared callable, "
     "selective, fresh-but-equal bound method, unhashable callable}, bft/dft_*/bfs/dfs_* from every vertex under 4 "
     "settings, find_links for every ordered pair - must agree item by item (incl. exception type) at every query "
-    "point and at the end.  Extra phase: final worlds dumped with warm caches are re-queried in a fresh "
-    "interpreter with the flag on.  Non-trivial = two consecutive query points whose true answers differ (a "
+    "point and at the end.  Extra phase: histories are split in two, the prefix runs here with caching on, the world is pickled "
+    "with warm caches and a fresh interpreter continues with the suffix (mutations and queries) with the flag on.  Non-trivial = two consecutive query points whose true answers differ (a "
     "mutation changed some neighbourhood) with the flag on at both, so run B had a warm entry to invalidate; "
     "distinct = distinct case value."
 )
@@ -46,7 +46,7 @@ TECHNIQUE = "differential stateful PBT: same Hypothesis-generated history execut
 
 OPS_W = (
     ["edge"] * 5 + ["v1"] * 3 + ["v2"] * 3 + ["link"] * 2 + ["unlink"] * 2
-    + ["al", "rl", "av", "uf"] + ["newv", "adj"] + ["flag"] * 3 + ["query"] * 5 + ["repickle"]
+    + ["al", "rl", "av", "uf"] + ["newv", "adj", "bulk"] + ["flag"] * 3 + ["query"] * 5 + ["repickle"]
 )
 
 
@@ -68,54 +68,75 @@ def strategy(tier):
     )
 
 
-def run_history(case, flagged, keep_world=False):
-    """-> (list of battery results at query points + final, flag-at-each-point, ops between)"""
+def run_ops(w, ops, flagged):
+    """Execute ops on world w; -> (battery results at query ops + at the end, flag at each point, ops between)."""
     from edgegraph.output import nrpickler
+    from edgegraph.structure import Vertex
+
+    outs, flags, between = [], [], []
+    cur = []
+    for op in ops:
+        r = w.resolve(op)
+        if r is None:
+            continue
+        name = r[0]
+        if name == "flag":
+            if flagged:
+                Vertex.NEIGHBOR_CACHING = bool(r[1] & 1)
+            cur.append("flag-on" if r[1] & 1 else "flag-off")
+            continue
+        if name == "query":
+            outs.append(battery.evaluate(w.vs, w.ls))
+            flags.append(bool(Vertex.NEIGHBOR_CACHING))
+            between.append(cur)
+            cur = []
+            continue
+        if name == "repickle":
+            try:
+                w.vs, w.ls = pickle.loads(nrpickler.dumps((w.vs, w.ls)))
+                cur.append("repickle")
+            except Exception as e:  # noqa  (same in both runs; C10 judges the pickler)
+                cur.append("repickle-raised-" + type(e).__name__)
+            continue
+        try:
+            w.execute(r)
+            cur.append(name)
+        except RecursionError:
+            cur.append(name + "-raised")
+        except Exception:  # noqa - tolerated as in C01; both runs see the same
+            cur.append(name + "-raised")
+    outs.append(battery.evaluate(w.vs, w.ls))
+    flags.append(bool(Vertex.NEIGHBOR_CACHING))
+    between.append(cur)
+    return outs, flags, between
+
+
+def run_history(case, flagged, keep_world=False):
+    """-> (list of battery results at query points + final, flag-at-each-point, ops between, ...)"""
     from edgegraph.structure import Vertex
 
     Vertex.NEIGHBOR_CACHING = bool(case["flag0"]) if flagged else False
     w = World(case["nv"], 0, case.get("vcls"))
-    outs, flags, between = [], [], []
-    cur = []
     try:
-        for op in case["ops"]:
-            r = w.resolve(op)
-            if r is None:
-                continue
-            name = r[0]
-            if name == "flag":
-                if flagged:
-                    Vertex.NEIGHBOR_CACHING = bool(r[1] & 1)
-                cur.append("flag-on" if r[1] & 1 else "flag-off")
-                continue
-            if name == "query":
-                outs.append(battery.evaluate(w.vs, w.ls))
-                flags.append(bool(Vertex.NEIGHBOR_CACHING))
-                between.append(cur)
-                cur = []
-                continue
-            if name == "repickle":
-                try:
-                    w.vs, w.ls = pickle.loads(nrpickler.dumps((w.vs, w.ls)))
-                    cur.append("repickle")
-                except Exception as e:  # noqa  (same in both runs; C10 judges the pickler)
-                    cur.append("repickle-raised-" + type(e).__name__)
-                continue
-            try:
-                w.execute(r)
-                cur.append(name)
-            except RecursionError:
-                cur.append(name + "-raised")
-            except Exception:  # noqa - tolerated as in C01; both runs see the same
-                cur.append(name + "-raised")
-        outs.append(battery.evaluate(w.vs, w.ls))
-        flags.append(bool(Vertex.NEIGHBOR_CACHING))
-        between.append(cur)
+        outs, flags, between = run_ops(w, case["ops"], flagged)
         snap = w.snapshot()
     finally:
         final_flag = Vertex.NEIGHBOR_CACHING
         Vertex.NEIGHBOR_CACHING = False
     return outs, flags, between, snap, (w if keep_world else None), final_flag
+
+
+def continue_in_this_process(vs, ls, ops):
+    """Used by the fresh-interpreter helper: continue a history on an un-pickled pool, caching on."""
+    from edgegraph.structure import Vertex
+
+    Vertex.NEIGHBOR_CACHING = True
+    try:
+        w = World.from_pool(vs, ls)
+        outs, _, _ = run_ops(w, ops, flagged=True)
+    finally:
+        Vertex.NEIGHBOR_CACHING = False
+    return outs
 
 
 def check_case(case):
@@ -171,7 +192,7 @@ def extra_phase(tier, seed, deadline):
     from edgegraph.structure import Vertex
     from eglib import driver, fresh
 
-    n = 60 if tier == "quick" else 1500
+    n = 150 if tier == "quick" else 3000
     cases = []
 
     @hypothesis.seed(driver.shard_seed(seed, ID + "-fresh", 0))
@@ -184,19 +205,26 @@ def extra_phase(tier, seed, deadline):
     jobs, expect, kept = [], [], []
     for case in cases:
         driver.reset_globals()
+        ops = case["ops"]
+        # split the history: the prefix runs here (caching on, queries warm the caches), the world is pickled,
+        # and a FRESH interpreter continues with the suffix (mutations and queries), caching on
+        cut = (len(ops) * (1 + case["nv"] % 3)) // 4
+        prefix, suffix = ops[:cut], ops[cut:]
         try:
             a_outs, *_ = run_history(case, flagged=False)
-            forced = dict(case, flag0=True, ops=[o for o in case["ops"] if o[0] != "flag"])
-            _, _, _, _, w, _ = run_history(forced, flagged=True, keep_world=True)
+            nq_prefix = sum(1 for o in prefix if o[0] == "query")
             Vertex.NEIGHBOR_CACHING = True
-            battery.evaluate(w.vs, w.ls)  # warm
+            w = World(case["nv"], 0, case.get("vcls"))
+            run_ops(w, [o for o in prefix if o[0] != "flag"], flagged=True)   # ends with a warming battery
             blob = nrpickler.dumps({"vs": w.vs, "ls": w.ls, "unis": []})
         except Exception:  # noqa - pickler problems are C10's business
             continue
         finally:
             Vertex.NEIGHBOR_CACHING = False
-        jobs.append(dict(blob=blob, flag=True, loader="pickle", want=["battery"], level=2))
-        expect.append(a_outs[-1])
+        jobs.append(dict(blob=blob, flag=True, loader="pickle", want=["c05suffix"], ops=[o for o in suffix if o[0] != "flag"]))
+        # expected: the uncached run's batteries at the suffix's query points and at the end
+        # (the prefix of a repickle-free history yields the same pool either way)
+        expect.append(a_outs[nq_prefix:])
         kept.append(case)
     failures = {}
     nt = set()
@@ -217,13 +245,21 @@ def extra_phase(tier, seed, deadline):
                 kind = "fresh-interpreter-raised:" + r["error"].split(":")[0]
                 failures.setdefault(kind, ({"_noreplay": True, "fresh": True, "case": case}, r["error"]))
                 continue
-            diff = battery.first_difference(expect[lo + k], r["battery"])
+            got = r["outs"]
+            exp = expect[lo + k]
+            diff = None if len(got) == len(exp) else f"{len(got)} query points in the fresh interpreter, {len(exp)} expected"
+            for q, (e_, g_) in enumerate(zip(exp, got)):
+                if diff:
+                    break
+                d = battery.first_difference(e_, g_)
+                if d:
+                    diff = f"suffix query point {q}: {d}"
             if diff:
                 failures.setdefault("fresh-interpreter-answer-differs", ({"_noreplay": True, "fresh": True, "case": case}, diff))
-            elif any(v for _, v in expect[lo + k] if isinstance(v, list) and v):
+            elif len(exp) >= 2 and exp[0] != exp[-1]:
                 nt.add(driver.case_hash({"fresh": case}))
     return dict(
         evaluations=evaluations, skipped_budget=0, nt=nt, nt_enum=0, classes=collections.Counter({"fresh-interpreter-world": evaluations}),
         excluded=0, samples=[], failures=failures, harness_errors=errors, by_phase=collections.Counter({"fresh-interpreter": evaluations}),
-        info={"fresh_interpreter_worlds": evaluations, "note": "each world dumped with warm caches (flag on), loaded with pickle in a new process with the flag on, full battery compared with the uncached run"},
+        info={"fresh_interpreter_worlds": evaluations, "note": "each history is split: the prefix runs here with caching on (queries warm the caches), the world is pickled, a new process loads it with caching on and continues with the suffix (mutations and queries); every battery of the suffix is compared with the uncached run's"},
     )
